@@ -227,6 +227,21 @@ reg(Spec("C07", "c07_interrupts.cpp", needs=("shim", "optable"),
                       "vector addresses and the sled stay below the data area (program and data space share one array)",
                       "entries are compared per instruction step; the 4096-cycle audio frames are run in one Run call and compared at their end"]))
 
+reg(Spec("C06", "c06_slicing.cpp", needs=("shim", "optable"),
+         cases={"quick": 1200, "thorough": 40000},
+         rule="system cases expanded from a rapidcheck-generated 64-bit value: program = 0..12 fillers + idle self-branch (always / "
+              "true condition / false condition + fall-through) or busy loop, four handlers with a generated subset of {count, read "
+              "ICU pending, acknowledge, restart timer0, push an audio word, mailbox reply, semaphore, early eint, 0..30 fillers} "
+              "ending in reti / retic / an idle loop; ICU routing of all 16 IRQs incl. vectored + context switch; core enables; both "
+              "timers in all four modes with start values constructed around the first idle cycle (+-3) or from {0..40, <3000, "
+              "<0x30000}, MU / pause bits; audio port with 0..16 queued words; n in [1, 20000]; 0..4 host events (SendData, "
+              "Set/Clear/MaskSemaphore, software trigger, DataWrite, RecvData) at generated cycle positions. Three runs from Reset: "
+              "one Run per segment, a generated refinement with zero-length calls, n x Run(1) (n <= 5000) or a second refinement; "
+              "full observation + ordered callback log compared at every boundary. Non-trivial = idle self-branch reached and a "
+              "handler ran or an audio frame was delivered; distinct by hash of the encoded case.",
+         assumptions=["a self-branch is never the last instruction of an active block repeat nor the target of rep (excluded by the property)",
+                      "Reset() between the three runs relies on C17 (Reset equals a fresh machine)"]))
+
 # Properties not (yet) claimed. Kept current by hand; every id in properties.jsonl is either in SPECS or here.
 _PENDING = "check not built yet in this round; planned with property-based testing per DESIGN.md"
 NOT_APPLICABLE = [{"property_id": "C%02d" % i, "reason": _PENDING} for i in range(1, 21) if "C%02d" % i not in SPECS]
